@@ -260,6 +260,7 @@ func (m *Memberlist) handleConn(conn net.Conn) {
 		_ = origConn.Close()
 		return
 	}
+	verifYield("conn", m)
 
 	defer func() {
 		// Always close the wrapped connection, that we got after removing the label header.
